@@ -19,10 +19,9 @@ def run(ctx):
     # design level
     fam.mc(ctx, "MC W=2 " + ("C12Quick" if q else "C12Thorough"), 2, "C12Quick" if q else "C12Thorough")
     fam.mc_expect_violation(ctx, "VACUITY publisher without test vectors", "C12_TAS", 2, "C12Tiny1", variant="notest")
-    if not q:
-        fam.mc_expect_violation(ctx, "VACUITY bound (W+1)k<=N needed (k=2,N=3, failing requests)", "C12_SurviveWithoutBound", 2, "C12Tiny2F",
+    fam.mc_expect_violation(ctx, "VACUITY bound (W+1)k<=N needed (k=2,N=3, failing requests)", "C12_SurviveWithoutBound", 2, "C12Tiny2F",
                             inv=["C12_SurviveWithoutBound"], props=[])
     if not q:
         fam.mc(ctx, "MC W=3 C12W3 (answers merged with execution)", 3, "C12W3")
     # implementation level
-    fam.drive(ctx, "C12", [("conc", 90 if q else 2600), ("dfs", 80 if q else 2400)])
+    fam.drive(ctx, "C12", [("conc", 130 if q else 2600), ("dfs", 120 if q else 2400)])
